@@ -271,6 +271,10 @@ func (m *ScaledNumberType) GetValue() float64 {
 	if m.Scale != nil {
 		scale = float64(*m.Scale)
 	}
+	if scale < 0 {
+		// 10^scale is not exactly representable for negative scales, 10^-scale is
+		return float64(*m.Number) / math.Pow(10, -scale)
+	}
 	return float64(*m.Number) * math.Pow(10, scale)
 }
 
